@@ -80,6 +80,13 @@ struct Ctx {
       const std::string text = render(g, syn, tries < 5 ? parenMode : 0, ws, rng, declShort).text;
       if (text.size() > 200 && tries < 5) continue;
       S.add(cls, std::string("c06 tree ") + synName(syn) + " " + hex(text) + " " + wire(g), [=] { return parseResult(text, syn); });
+      if (counter % 5 == 0) {
+        // a reused Parser: first a multi-line expression (valid or not), then this text
+        static const std::vector<std::string> preMath = { "X1\n\xE2\x88\xAA\nX2", "D{\xCE\xBE\xE2\x88\x88X1 |\n \xCE\xBE=\xCE\xBE\n}", "X1 \xE2\x88\xAA\n\n (", "\n\n\n" };
+        static const std::vector<std::string> preAscii = { "X1\n\\union\nX2", "D{a \\in X1 |\n a \\eq a\n}", "X1 \\union\n\n (", "\n\n\n" };
+        const std::string pre = syn == Syntax::MATH ? preMath[rng.below(4)] : preAscii[rng.below(4)];
+        S.add(cls + ":reused", std::string("c06 treeafter ") + synName(syn) + " " + hex(pre) + " " + hex(text) + " " + wire(g), [=] { return parseResultAfter(pre, text, syn); });
+      }
       if (++counter % findminEvery == 0) queries(cls + ":findmin", syn, text, g);
       if (wsMode == 2 && counter % 4 == 0) lex(cls + ":lex", syn, text);
       return;
